@@ -392,13 +392,24 @@ class CFG(object):
                 out.append((n.ast, label == "T"))
         return out
 
-    def conditions_of(self, nid):
+    def conditions_of(self, nid, loop_exits=True):
         """tests that control node nid by edge-dominance: list of (test_ast, polarity)
-        such that every path entry -> nid takes that branch of that test."""
+        such that every path entry -> nid takes that branch of that test.
+        loop_exits=False drops the exit conditions of `while` loops that precede the node."""
         out = []
         for t in self.nodes:
             if t.kind != "test":
                 continue
+            if not loop_exits and isinstance(t.stmt, ast.While):
+                inside = False
+                p = self.nodes[nid].stmt
+                while p is not None:
+                    if p is t.stmt:
+                        inside = True
+                        break
+                    p = getattr(p, "_parent", None)
+                if not inside:
+                    continue
             if not self.dominates(t.id, nid) or t.id == nid:
                 continue
             for lab in ("T", "F"):
